@@ -660,6 +660,39 @@ impl Space for StreamSpace {
         let img = (c.make)(c.enc);
         json!({"image": img.name, "bytes": img.bytes.len(), "ops": img.ops.len(), "deviation_budget_per_transition": c.dev, "max_depth": c.max_depth, "sample_actions": img.ops.iter().take(3).map(|o| act_json(&img, &Act{kind: ActKind::Op(*o), script: vec![]})).collect::<Vec<_>>()})
     }
+    /// Replays exactly the recorded path (no search): every step's outcome is printed.
+    fn replay(&self, idx: u64, detail: &str, out: &mut Outcome) {
+        let line = match detail.lines().find(|l| l.starts_with("PATH: ")) {
+            Some(l) => &l[6..],
+            None => return self.run(idx, out),
+        };
+        let path: Vec<Value> = serde_json::from_str(line).expect("PATH json");
+        let c = &self.cases[idx as usize];
+        let m = SModel::new((c.make)(c.enc), self.which, c.dev);
+        let mut s = m.init_states()[0].clone();
+        for (n, step) in path.iter().enumerate() {
+            let kind = match step["k"].as_u64() {
+                Some(i) => ActKind::Op(m.img.ops[i as usize]),
+                None => ActKind::Open,
+            };
+            let script: Vec<(u32, Choice)> = step["s"].as_array().map(|a| a.iter().map(|x| (x[0].as_u64().unwrap() as u32, Choice::from_name(x[1].as_str().unwrap()).expect("choice"))).collect()).unwrap_or_default();
+            let act = Act { kind, script };
+            println!("step {}: {}", n, act_json(&m.img, &act));
+            match m.step(&s, &act) {
+                None => {
+                    println!("  (the environment script did not apply: replay diverged)");
+                    panic!("replay diverged at step {n}");
+                }
+                Some(t) => {
+                    println!("  -> phase {} verdict {:?}", t.phase, t.bad);
+                    s = t;
+                }
+            }
+        }
+        if let Some(b) = s.bad {
+            out.violate("replayed-path", b);
+        }
+    }
     fn run(&self, idx: u64, out: &mut Outcome) {
         let c = &self.cases[idx as usize];
         let img = (c.make)(c.enc);
@@ -731,9 +764,27 @@ impl Space for StreamSpace {
                 Which::C17 => format!("fault-residue:{}", short),
             };
             let key = if what.contains("panic") { format!("panic:ElfStream in {}", panic_site(&what)) } else { key };
+            // machine-readable path for `./check replay`: open / op index into the image's op list + env script
+            let compact: Vec<Value> = acts
+                .iter()
+                .map(|a| {
+                    let k = match &a.kind {
+                        ActKind::Open => json!("open"),
+                        ActKind::Op(op) => json!(m.img.ops.iter().position(|o| o == op)),
+                    };
+                    json!({"k": k, "s": a.script.iter().map(|(i, c)| json!([i, format!("{:?}", c)])).collect::<Vec<_>>()})
+                })
+                .collect();
             out.violate(
                 key,
-                format!("{}\nimage {}\npath ({} actions): {}", what, m.img.name, acts.len(), serde_json::to_string(&acts.iter().map(|a| act_json(&m.img, a)).collect::<Vec<_>>()).unwrap()),
+                format!(
+                    "{}\nimage {}\npath ({} actions): {}\nPATH: {}",
+                    what,
+                    m.img.name,
+                    acts.len(),
+                    serde_json::to_string(&acts.iter().map(|a| act_json(&m.img, a)).collect::<Vec<_>>()).unwrap(),
+                    serde_json::to_string(&compact).unwrap()
+                ),
             );
         }
     }
